@@ -287,7 +287,11 @@ def decide(ctx, level="proof", search=None):
     known_keys = {(k["property"], k["key"]): k for k in known.get("findings", [])}
 
     # intensify the failing-input search when something broke without a concrete input
-    if (ctx.obligation_breaks or ctx.tie_breaks) and not ctx.violations and search is not None:
+    # (an advisory drift of an internal stage — the generated text, the token list, the AST — also buys a deeper search:
+    #  the internals changed, so the model vouches for less)
+    internal_drift = [d for d in ctx.drifts if d["stage"] not in ("error-class",)]
+    if (ctx.obligation_breaks or ctx.tie_breaks or internal_drift) and not ctx.violations and search is not None:
+        ctx.count("deep-search-runs")
         try:
             search(ctx)
         except Exception as ex:  # noqa
